@@ -395,6 +395,22 @@ for b, label in FAULT_BASES:
     for idx, op, k in positions:
         go(dict(b, faults={idx: k}, out_existing=R.choice([None, OLD]), why=f"token fault {k} on {op} operation #{idx}"), f"fault-{label}-{op}", "fault")
 
+# a token that returns RSA results as minimal-length integers: harmless unless a signature starts with a zero octet - ceremonies are searched
+# (cycle start shifted second by second) until the reference signer says one of the requested signatures does, then every signing call strips
+found = 0
+for b, label, schema in ((base1, "one-signer", SCHEMA1), (base2, "two-signers", SCHEMA2)):
+    for s_ in range(1, 4000):
+        cand = successor(b["prev"], ZP, overlap=D(days=11, seconds=s_), rid=f"next-req-z{s_}")
+        if not any(sg["data"][0] == 0 for bb in skrgen.simulate_skr(cand, schema, KSKS, ZP)["bundles"] for sg in bb["sigs"]):
+            continue
+        ref = run_ceremony(dict(b, ksr=cand), "probe")
+        signs = [e[1] for e in ref["ops"] if len(e) == 3 and isinstance(e[1], int) and e[0] == "sign"]
+        go(dict(b, ksr=cand, faults={i: "strip-zero" for i in signs}, out_existing=OLD,
+                why="the token returned an RSA signature one octet short of the modulus (leading zero dropped)"), f"fault-{label}-short-signature", "fault")
+        found += 1
+        break
+hist["short-signature-search"] = found
+
 vp.datetime = dt.datetime
 ok_build, blog = vlib.make(["Checks/C03Check.vo"])
 runner = vlib.CaseRun("C03", "main", "From KV Require Import Base.Prelude Base.Exn Model.Data Model.Pipeline Checks.C03Check.", "case", "check", shard=100)
